@@ -163,6 +163,13 @@ Theorem join_refuses_mixed_cells : forall v w r others ct dis w' t os,
 Proof. exact join_operands_agree. Qed.
 Print Assumptions join_refuses_mixed_cells.
 
+(* ---- the getters are observers: in the model no derived cell quantity is stored, so whatever is read between two
+        assignments, the next read is computed from the stored lengths and angles of that moment (the runs interleave reads of
+        vectors / volumes / lengths / angles / periodic distances with single-field assignments and compare after every step) *)
+Theorem reading_the_cell_changes_nothing : forall v w r w' x, step v w (OReadCell r) = (w', x) -> w' = w.
+Proof. exact read_cell_pure. Qed.
+Print Assumptions reading_the_cell_changes_nothing.
+
 (* ---- half-set cells (lengths without angles or the reverse): after ANY history without a part assignment no
         trajectory has one; the three part assignments that create them; slice/stack keep them, join/atom_slice drop them *)
 Theorem half_set_cell_needs_part_assignment : forall v sps ops,
